@@ -2658,6 +2658,9 @@ def reshape(array: Array, newshape: int | Sequence[int],
     if order.upper() not in ["F", "C"]:
         raise ValueError("order must be one of F or C")
 
+    # lowering and the code generators compare the stored order with "C"/"F"
+    order = order.upper()
+
     newshape_explicit: list[ShapeComponent] = []
 
     for new_axislen in newshape:
